@@ -94,7 +94,13 @@ func c01case(c GCase, a *run.Acc) {
 			UnderMemo: func(e *gram.Expr, p parsley.Parser) parsley.Parser { return gd.Inside(1000+e.ID, p) }})
 		c01cache = c01built{g: g, memo: c.MemoExpr, gd: gd, b: b}
 	}
+	gd.FileEnd = env.Base + len(c.In)
+	gd.SpanViolation = ""
 	o := gram.Run(env, b.NTs[c.NT], c.Pos)
+	if gd.SpanViolation != "" {
+		a.Violate("result-outside-its-span", "result-outside-its-span", map[string]any{"case": c.Describe(), "observed": gd.SpanViolation})
+		return
+	}
 	a.Count("probe_events", int64(gd.Events))
 	a.Count("curtailed_calls_observed", int64(gd.Curtailed))
 	a.Count("requests_answered_without_execution(cache hit or curtailed)", int64(gd.NoExec))
